@@ -5,7 +5,7 @@ from symx.api import *
 PROPERTY = 'C11'
 LEVEL = 'other'
 FILES = ['mesonbuild/minstall.py', 'mesonbuild/scripts/__init__.py', 'mesonbuild/utils/universal.py', 'mesonbuild/utils/platform.py']
-ENCODED = ['minstall.get_destdir_path', 'scripts.destdir_join', 'Installer.should_install', 'minstall.sanitize_permissions', 'minstall.set_mode', 'FileMode.__init__/perms_s_to_bits',
+ENCODED = ['Backend.generate_header_install / generate_man_install / generate_data_install / generate_subdir_install (install-entries)', 'minstall.get_destdir_path', 'scripts.destdir_join', 'Installer.should_install', 'minstall.sanitize_permissions', 'minstall.set_mode', 'FileMode.__init__/perms_s_to_bits',
            'Installer.install_data/install_headers/install_man/install_emptydir/install_symlinks (destination computation; every mutating primitive replaced by a recorder)',
            'Installer.set_mode/sanitize_permissions/makedirs dry-run wrappers', 'Installer.do_symlink (against a 4-state model of the link name)']
 EXPLANATION = ('Symbolic execution of the destination and mode computation of the installer: DESTDIR, prefix, install directories and file names are symbolic strings over {/, ., a, b}, '
